@@ -237,9 +237,17 @@ fn main() {
                 if let Some(n) = s(item, "rename_fn") {
                     sig.ident = Ident::new(&n, Span::call_site());
                 }
-                rules::apply_all(&mut block, item, &mut fired, &name);
+                let marker_name = s(item, "marker_name").unwrap_or_else(|| sig.ident.to_string());
+                let contract_only = item.get("contract_only").and_then(|x| x.as_bool()).unwrap_or(false);
+                if contract_only {
+                    // modular use: only the signature is taken; the body is verified in the unit that owns the fn
+                    block = parse_quote! { { vx_contract_only!(); unimplemented!() } };
+                    fired.push("contract-only (body verified in its own unit)".into());
+                } else {
+                    rules::apply_all(&mut block, item, &mut fired, &name);
+                }
                 rules::clean_sig(&mut sig);
-                rules::mark(&mut block, &sig.ident.to_string());
+                rules::mark(&mut block, &marker_name);
                 let ret = rules::ret_marker(&mut sig);
                 let f = quote! { #sig #block };
                 let text = match shell {
